@@ -229,6 +229,11 @@ Op("merge", _gen_merge, _impl_merge, _coq_merge, lambda seqs: len(seqs) > 1)
 # ---------------------------------------------------------------------------------------------- cutoff
 def _gen_cutoff(r):
     ms = G.gen_abs_wf(r)
+    if r.random() < 0.25:      # unclosed notes (a note-off is imputed), orphan note-offs, re-triggers
+        ms = [m for m in ms if r.random() < 0.8]
+        for _ in range(r.choice([0, 1, 2])):
+            c, p, t = r.choice([0, 1]), r.choice([60, 61]), G.tick(r, 40)
+            ms.append(ON(c, p, 100, t) if r.random() < 0.5 else OFF(c, p, t))
     m = r.choice([6, 12, 24, 11, 13, 30, 1])
     return ms, m, r.choice([m, max(1, m - 1), 1, max(1, m // 2), 6])
 
@@ -412,7 +417,17 @@ def _gen_equals(r):
 
 def _impl_equals(inp):
     a, b, fl, _ = inp
-    return "T" if mk_abs(a).equals(mk_abs(b), *fl) else "F"
+    res = mk_abs(a).equals(mk_abs(b), *fl)
+    if not any(fl):
+        # the operators: Sequence.__eq__, AbsoluteSequence.__eq__, RelativeSequence.__eq__ are equals() with all flags off;
+        # anything that is not a sequence is unequal
+        sa, sb = mk_abs(a), mk_abs(b)
+        others = [mk_abs(a) == mk_abs(b), sa.abs == sb.abs, mk_abs(a).rel == mk_abs(b).rel]
+        if mk_abs(a) == 1 or mk_abs(a).equals("x") or mk_abs(a).abs == None or mk_abs(a).rel == []:   # noqa: E711
+            return "!operator accepts a non-sequence"
+        if any(bool(x) != bool(res) for x in others):
+            return f"!operators disagree with equals: {others} vs {res}"
+    return "T" if res else "F"
 
 
 Op("equals", _gen_equals, _impl_equals,
@@ -549,10 +564,20 @@ def _impl_util(inp):
     if kind == "steps":
         ubs, lbs = a
         return ",".join(map(str, util.get_default_step_sizes(upper_bound_shift=ubs, lower_bound_shift=lbs)))
+    if kind == "dotted":
+        ds, it = a
+        return ",".join(map(str, util.get_dotted_note_durations(list(ds), it)))
+    if kind == "tuplet":
+        ds, rn, rd = a
+        return ",".join(map(str, util.get_tuplet_durations(list(ds), rn, rd)))
 
 
 def _gen_util(r):
-    k = r.choice(["defaults", "vbins", "vbins", "binvel", "binvel", "fmd", "fmd", "durs", "steps"])
+    k = r.choice(["defaults", "vbins", "vbins", "binvel", "binvel", "fmd", "fmd", "durs", "steps", "dotted", "tuplet"])
+    if k == "dotted":      # odd durations: the dotted value is not integral and is skipped
+        return k, ([r.choice([96, 48, 24, 12, 6, 3, 1, 5, 36, 18, 9, 10, 2]) for _ in range(r.randint(0, 5))], r.choice([0, 1, 1, 2, 3]))
+    if k == "tuplet":
+        return k, ([r.choice([96, 48, 24, 12, 6, 3, 1, 5, 36, 7]) for _ in range(r.randint(0, 5))], r.choice([3, 3, 5, 7, 2]), r.choice([2, 2, 4, 1, 3]))
     if k == "steps":
         return k, (r.choice([0, 1, 2]), r.choice([0, 1, 2]))
     if k == "defaults":
@@ -579,6 +604,10 @@ def _coq_util(inp):
         return f"show_Z (find_minimal_distance {a[0]} {lit_zs(a[1])})"
     if kind == "steps":
         return f"show_Zs (get_default_step_sizes {a[0]} {a[1]})"
+    if kind == "dotted":
+        return f"show_Zs (get_dotted_note_durations {lit_zs(a[0])} {a[1]})"
+    if kind == "tuplet":
+        return f"show_Zs (get_tuplet_durations {lit_zs(a[0])} {a[1]} {a[2]})"
     return f"show_Zs (get_note_durations {a[0]} {a[1]} PPQN)"
 
 
@@ -1669,6 +1698,29 @@ def _impl_comp(inp):
 Op("composition", _gen_comp, _impl_comp,
    lambda inp: f"comp_scenario {lit_msgss(inp[0])} {inp[1]}%nat {inp[2]}%nat {inp[3]}%nat {z(inp[4])}",
    lambda inp: sum(len(x) for x in inp[0]) > 3)
+
+
+def _gen_comp_file(r):
+    tpb, tracks, groups, metas, mi = gen_midi_file(r)[:5]
+    return tpb, tracks, groups, metas, max(0, mi)
+
+
+def _impl_comp_file(inp):
+    tpb, tracks, groups, metas, mi = inp
+    path = os.path.join(TMP, f"c{os.getpid()}.mid")
+    write_midi(tpb, tracks, path)
+    c = Composition.from_midi_file(path, [list(g) for g in groups], list(metas), mi)
+    out = show_comp(c) + "#"
+    try:
+        out += "|".join(show_seq(s) for s in c.to_sequences())
+    except Exception as e:
+        out += show_exc(e)
+    return out
+
+
+Op("comp_file", _gen_comp_file, _impl_comp_file,
+   lambda inp: f"show_comp_file {inp[0]} [" + "; ".join(lit_evs(t) for t in inp[1]) + f"] {'[' + '; '.join(lit_zs(g) for g in inp[2]) + ']'} {lit_zs(inp[3])} {z(inp[4])}",
+   lambda inp: sum(len(t) for t in inp[1]) > 3)
 
 
 # ---------------------------------------------------------------------------------------------- getters (Model/Getters.v)
